@@ -912,7 +912,18 @@ namespace chaiscript {
         const auto start = m_position;
         if (Id_()) {
           auto text = Position::str(start, m_position);
-          const auto text_hash = utility::hash(text);
+          // the hash only labels the case below; the spelling decides (distinct identifiers can share a hash)
+          const auto text_hash = [&text]() -> std::uint32_t {
+            for (const std::string_view word : {"true", "false", "Infinity", "NaN", "__LINE__", "__FILE__", "__FUNC__", "__CLASS__", "_"}) {
+              if (text == word) {
+                return utility::hash(word);
+              }
+            }
+            return 0; // no special word hashes to 0, see the static_assert below
+          }();
+          static_assert(utility::hash("true") != 0 && utility::hash("false") != 0 && utility::hash("Infinity") != 0 && utility::hash("NaN") != 0
+                        && utility::hash("__LINE__") != 0 && utility::hash("__FILE__") != 0 && utility::hash("__FUNC__") != 0
+                        && utility::hash("__CLASS__") != 0 && utility::hash("_") != 0);
 
           if (validate) {
             validate_object_name(text);
